@@ -13,6 +13,7 @@ package main
 //            ([[], h] for a hash h, a Merge result that shares entries with h, a nested hash, an array) and path elements
 //            (one and two segments, present and absent keys, integer segments into foreign values, hash / array
 //            values), on a pool that also holds values derived from h earlier (Merge, Slice, the entry object At(0));
+//            two calls on the same root (also a root built with spare capacity) and on the result of the first call;
 //            and second calls whose tree holds hashes nested in the result of the first call (under a path, as root).
 import (
 	"fmt"
@@ -312,6 +313,29 @@ func tree(r *xrunner) {
 				if i == 0 || i == 3 || (i+j+k)%3 == 0 {
 					run(0, []treeEl{a, b, c}, 1+(i+j+k)%2, false)
 				}
+			}
+		}
+	}
+	// two calls on the same root (a result that kept the root's backing array - with spare capacity when the root was
+	// built with a capacity - would be written to by the second call), and a call on the result of the first
+	for _, route := range []int{2, 0} {
+		for i, p1 := range al[4:] {
+			for j, p2 := range al[4:] {
+				if route == 0 && (i+j)%2 == 1 {
+					continue
+				}
+				ops, t1 := pushTree(treePrelude(route), []treeEl{{path: A(), ref: 0}, p1})
+				ops = append(ops, collh.Op{Kind: "HashNew", R: t1, I: 1})
+				r1 := len(ops) - 1
+				root := 0
+				if (i+j)%3 == 2 {
+					root = r1
+				}
+				var t2 int
+				ops, t2 = pushTree(ops, []treeEl{{path: A(), ref: root}, p2})
+				ops = append(ops, collh.Op{Kind: "HashNew", R: t2, I: 1})
+				idx++
+				r.check(ops, idx%7 == 0, "tree-two-calls")
 			}
 		}
 	}
